@@ -736,11 +736,16 @@ impl<'a> SkiplistIterator<'a> {
 		}
 		// Check upper bound first - if entry is at or past upper, move backward
 		if let Some(upper) = self.upper.as_deref() {
-			while self.is_valid() {
-				let key = self.key_bytes();
-				if (self.list.cmp)(upper, key) == Ordering::Greater {
-					// key < upper, so this entry is valid
-					break;
+			loop {
+				// `upper_node` (cached by an earlier forward move that ran into the
+				// upper bound) is itself at or past the bound: step over it like any
+				// other such entry instead of stopping on it.
+				if self.nd != self.upper_node {
+					let key = unsafe { (*self.nd).get_key_bytes(&self.list.arena) };
+					if (self.list.cmp)(upper, key) == Ordering::Greater {
+						// key < upper, so this entry is valid
+						break;
+					}
 				}
 				// key >= upper, skip this entry
 				self.nd = self.list.get_prev(self.nd, 0);
